@@ -578,7 +578,7 @@ def observe(ds, case, scratch, tag, sel_of=None, light=False):
                         par["down"][2]]))
     for dsz in (sizes[:1] if light else sizes):
         for xs, ys in (("linear", "linear"), ("log", "linear"),
-                       ("linear", "log")):
+                       ("linear", "log"), ("log", "log")):
             key = "down/%d/%s/%s" % (dsz, xs, ys)
             r = guarded(lambda: ds.get_downsampled_scatter(
                 xax=xax, yax=yax, downsample=dsz, xscale=xs, yscale=ys,
@@ -592,11 +592,18 @@ def observe(ds, case, scratch, tag, sel_of=None, light=False):
                 obs[key + "/maskok"] = ("ok", bool(okm))
                 r = ("ok", (x, y))
             obs[key] = r
-            if xs == "linear" and ys == "linear":
+            if dsz == sizes[0]:
                 obs[key + "/nomask"] = guarded(
                     lambda: ds.get_downsampled_scatter(
-                        xax=xax, yax=yax, downsample=dsz,
-                        remove_invalid=par["rm_invalid"]))
+                        xax=xax, yax=yax, downsample=dsz, xscale=xs,
+                        yscale=ys, remove_invalid=par["rm_invalid"]))
+    # a requested feature the dataset lacks (NaN, not an error), upper-case
+    # feature names, unusable accuracies (an error, not a wrong grid)
+    obs["stats_lacking"] = guarded(lambda: statistics.get_statistics(
+        ds, features=[names[0].upper(), "fl3_width"]))
+    for tagacc, acc in (("neg", -1.0), ("nan", float("nan"))):
+        obs["contour_badacc/" + tagacc] = guarded(lambda: ds.get_kde_contour(
+            xax=xax, yax=yax, xacc=acc, yacc=1.0))
     obs["tsv"] = guarded(lambda: tsv_rows(ds, names, scratch, tag))
     obs["tsv_all"] = guarded(lambda: tsv_rows(ds, names, scratch, tag,
                                               filtered=False))
@@ -640,11 +647,38 @@ def compare_obs(oa, ob, la, lb, skip=()):
                 if not close(float(x), float(y), 1e-12, 0):
                     fails.append("statistic %r: %s dataset %r, %s dataset %r"
                                  % (h, la, float(x), lb, float(y)))
-        elif canon(a[1]) != canon(b[1]):
+        elif not same_result(a[1], b[1]):
             fails.append("%s: result on the %s dataset differs from the "
                          "result on the %s dataset (%s vs %s)" % (
                              k, la, lb, short(a), short(b)))
     return fails
+
+
+def same_result(a, b, rtol=1e-12):
+    """same shapes and values (NaN == NaN); numbers may differ by one part
+    in 1e12 (summation order is not part of the property)"""
+    import numpy as np
+    if isinstance(a, (tuple, list)) or isinstance(b, (tuple, list)):
+        if not (isinstance(a, (tuple, list)) and isinstance(b, (tuple, list))
+                and len(a) == len(b)):
+            return False
+        return all(same_result(u, v, rtol) for u, v in zip(a, b))
+    if isinstance(a, str) or isinstance(b, str):
+        return a == b
+    try:
+        u = np.asarray(a)
+        v = np.asarray(b)
+        if u.shape != v.shape:
+            return False
+        if u.dtype.kind in "fiub" and v.dtype.kind in "fiub":
+            uf, vf = u.astype(np.float64), v.astype(np.float64)
+            fin = np.isfinite(vf)
+            top = float(np.max(np.abs(vf[fin]))) if fin.any() else 0.0
+            return bool(np.allclose(uf, vf, rtol=rtol, atol=1e-14 * top,
+                                    equal_nan=True))
+    except Exception:
+        pass
+    return canon(a) == canon(b)
 
 
 def short(r):
@@ -767,6 +801,40 @@ def check_statistics(case, obs, mask):
         if reliable and not close(got["Mode"], mv, 1e-9, 1e-12 * scale):
             fails.append("Mode %s = %r, definition %r" % (
                 nm, got["Mode"], mv))
+    return fails
+
+
+def check_misc(case, obs):
+    """a requested feature the dataset lacks gives NaN (the other one is
+    found whatever its letter case); unusable contour accuracies are refused"""
+    fails = []
+    r = obs.get("stats_lacking")
+    if r is not None:
+        if r[0] != "ok" or obs["stats"][0] != "ok":
+            fails.append("get_statistics with a feature the dataset lacks: "
+                         + short(r))
+        else:
+            head, vals = r[1]
+            full = dict(zip(obs["stats"][1][0],
+                            [float(v) for v in obs["stats"][1][1]]))
+            if len(head) != 3 + 8:
+                fails.append("get_statistics(features=[UPPER, lacking]) "
+                             "reports %d values" % len(head))
+            else:
+                for h, v in list(zip(head, vals))[3:7]:
+                    if h not in full or not close(float(v), full[h], 1e-12):
+                        fails.append("upper-case feature name: %r = %r, "
+                                     "lower-case %r" % (h, float(v),
+                                                        full.get(h)))
+                for h, v in list(zip(head, vals))[7:]:
+                    if not math.isnan(float(v)):
+                        fails.append("%r = %r for a feature the dataset "
+                                     "lacks" % (h, float(v)))
+    for k, r in obs.items():
+        if k.startswith("contour_badacc/") and r[0] == "ok" and \
+                r[1][0].size > 0:
+            fails.append("%s: a %s grid is returned for an unusable "
+                         "accuracy" % (k, list(r[1][0].shape)))
     return fails
 
 
@@ -1218,10 +1286,35 @@ def check_tsv_down(case, obs, mask):
 
     def same(a, b):
         return (a == b) or (a != a and b != b)
+    from dclab import downsampling
+    m = len(pairs)
     for k, r in obs.items():
-        if not k.startswith("down/") or k.endswith("/maskok") or \
-                r[0] != "ok":
+        if not k.startswith("down/") or k.endswith("/maskok"):
             continue
+        if r[0] != "ok":
+            # a non-negative request on any selection must be answered
+            fails.append("%s raises %s (%d selected events)" % (k, r[1], m))
+            continue
+        parts = k.split("/")
+        # definition: downsample_grid on the scaled selected events, capped
+        # at the number of selected events
+        with np.errstate(all="ignore"):
+            try:
+                _, _, idx = downsampling.downsample_grid(
+                    sc(xs, parts[2]), sc(ys, parts[3]),
+                    samples=min(int(parts[1]), m),
+                    remove_invalid=case["par"]["rm_invalid"], ret_idx=True)
+                want = (xs[idx], ys[idx])
+            except Exception:
+                want = None
+        if want is not None and not (
+                np.array_equal(np.asarray(r[1][0], dtype=float), want[0],
+                               equal_nan=True)
+                and np.array_equal(np.asarray(r[1][1], dtype=float), want[1],
+                                   equal_nan=True)):
+            fails.append("%s: %d points returned, downsample_grid on the "
+                         "scaled selected events keeps %d (or other ones)"
+                         % (k, len(r[1][0]), len(want[0])))
         x, y = r[1]
         j = 0
         okk = len(x) == len(y)
@@ -1233,7 +1326,7 @@ def check_tsv_down(case, obs, mask):
                 okk = False
                 break
             j += 1
-        dsz = int(k.split("/")[1])
+        dsz = int(parts[1])
         if okk and dsz == 0 and not case["par"]["rm_invalid"] and \
                 len(x) != len(pairs):
             okk = False
@@ -1448,6 +1541,7 @@ def meta_worker(args):
     fails += check_statistics(case, obsA, mask)
     fails += check_tsv_down(case, obsA, mask)
     fails += check_stats_methods(case, obsA)
+    fails += check_misc(case, obsA)
     sa = check_statistics_all(dsA, obsA, mask, flt["kind"] != "disabled")
     if isinstance(sa, tuple):
         fails += sa[0]
